@@ -205,17 +205,44 @@ func VShards(n int) {
 	sts.Name = "prom"
 	sts.Namespace = "ns"
 	sts.Spec.Selector = &metav1.LabelSelector{MatchLabels: map[string]string{"app": "prom"}}
-	perm := vPerms3[zzv.Choose("perm", 6)]
 	ips := make([]string, n)
 	pods := &corev1.PodList{}
 	var order []int
-	for _, k := range perm {
-		if k < n {
-			order = append(order, k)
+	if n <= 3 {
+		perm := vPerms3[zzv.Choose("perm", 6)]
+		for _, k := range perm {
+			if k < n {
+				order = append(order, k)
+			}
+		}
+	} else {
+		// many pods (ordinals with different digit counts): ordinal order, reverse order, and the
+		// API server's name order
+		switch zzv.Choose("order", 3) {
+		case 0:
+			for k := 0; k < n; k++ {
+				order = append(order, k)
+			}
+		case 1:
+			for k := n - 1; k >= 0; k-- {
+				order = append(order, k)
+			}
+		default:
+			order = append(order, 0, 1)
+			for k := 10; k < n; k++ {
+				order = append(order, k)
+			}
+			for k := 2; k < 10 && k < n; k++ {
+				order = append(order, k)
+			}
 		}
 	}
 	for i := 0; i < n; i++ {
-		ips[i] = zzv.Str("ip"+zzv.Itoa(i), "", "10.0.0."+zzv.Itoa(i+1))
+		if n <= 3 {
+			ips[i] = zzv.Str("ip"+zzv.Itoa(i), "", "10.0.0."+zzv.Itoa(i+1))
+		} else {
+			ips[i] = "10.0.0." + zzv.Itoa(i+1)
+		}
 	}
 	for _, k := range order {
 		p := corev1.Pod{}
